@@ -3,7 +3,8 @@
 worktree of /repo (never /repo itself), runs the quick check of its own property
 (plus any listed in meta.json "also") against that tree, and records the outcome in
 seeded/<name>/detected.json and seeded/MATRIX.md. A seed whose own check
-exits 0 is reported as MISSED and the script exits 1."""
+exits 0 is reported as MISSED and the script exits 1. --resume keeps the results already
+recorded for the current /repo head (only seeds that were detected)."""
 import json
 import os
 import re
@@ -20,6 +21,8 @@ def sh(cmd, **kw):
 
 
 def main():
+    resume = "--resume" in sys.argv
+    sys.argv = [a for a in sys.argv if a != "--resume"]
     names = sys.argv[1:] or sorted(n for n in os.listdir(SEEDED)
                                    if os.path.isfile(os.path.join(SEEDED, n, "patch.diff")))
     wt = "/tmp/seedmatrix_wt_%d" % os.getpid()
@@ -34,6 +37,13 @@ def main():
         for name in names:
             d = os.path.join(SEEDED, name)
             meta = json.load(open(os.path.join(d, "meta.json")))
+            dj = os.path.join(d, "detected.json")
+            if resume and os.path.exists(dj):
+                old = json.load(open(dj))
+                own = old.get("checks", {}).get(name[:3], {})
+                if old.get("repo_head") == head and own.get("rc") == 1 and own.get("violation_line"):
+                    rows.append((name, old))
+                    continue
             sh("git -C %s checkout -- ." % wt)
             a = sh("git -C %s apply %s/patch.diff" % (wt, d))
             if a.returncode:
